@@ -259,6 +259,10 @@ def fp2_mul_val(x, y):
         ri = pow(1 << 384, -1, P381)
         return ((a0 * b0 - a1 * b1) * ri % P381, (a0 * b1 + a1 * b0) * ri % P381)
     A, B = _cat2(a0, a1), _cat2(b0, b1)
+    if isinstance(A, int):
+        A = z3.BitVecVal(A, 768)
+    if isinstance(B, int):
+        B = z3.BitVecVal(B, 768)
     if A.hash() > B.hash():
         A, B = B, A
     r = MULM2(A, B)
